@@ -125,6 +125,37 @@ def run_times_case(prog, params):
                     m = ex.check(opt_eq(post['c'], cur['c']), 'created preserved')
                     if m is not None:
                         findings.append(make_finding('C19', key0 + '|append_changes_creation_time', 'appending to a file changed its creation time', sr, m))
+            # two append sessions that overlap (second opened before the first is closed; closed one after the other), and a
+            # session that is flushed before it is closed: the creation time is still the file's own
+            if r == 'ok' and params.get('overlap', True):
+                for variant in ('two_handles', 'flush_then_close'):
+                    sr.syms['m1'] = sym_content(ex, 1, 'm1_' + variant)
+                    sr.syms['m2'] = sym_content(ex, 1, 'm2_' + variant)
+                    if sr.do('hopen A f append') != 'ok':
+                        break
+                    sr.do('hwrite A $m1')
+                    if variant == 'two_handles':
+                        if sr.do('hopen B f append') != 'ok':
+                            sr.do('hdrop A')
+                            break
+                        sr.do('hwrite B $m2')
+                        sr.do('hdrop A')
+                        sr.do('hdrop B')
+                    else:
+                        sr.do('hflush A')
+                        sr.do('append f $m2')
+                        sr.do('hdrop A')
+                    if any(o_ in ('panic', 'deadlock') for _l, o_ in sr.log[-6:]):
+                        findings.append(make_finding('C13', key0 + '|overlapping_append|panic', 'overlapping append sessions panic', sr))
+                        return findings
+                    sr.do('times f')
+                    if sr.last.ok:
+                        post = dict(sr.last.value)
+                        m = ex.check(opt_eq(post['c'], cur['c']), 'created preserved (overlap)')
+                        if m is not None:
+                            findings.append(make_finding('C19', key0 + '|append_changes_creation_time|' + variant,
+                                                         'overlapping append sessions changed the creation time', sr, m))
+                            return findings
         if not res.samples:
             res.samples.append({'config': cfg, 'entry': kind, 'script': [l for l, _ in sr.log if l.split()[0] in ('set_time', 'times', 'append')]})
         return findings
